@@ -1,4 +1,6 @@
 import Gql.Proofs.Sys
+import Gql.Proofs.Complete
+import Gql.Proofs.AnnounceRun
 import Gql.Proofs.StreamQueue
 import Gql.Async.EnvOk
 /-!
@@ -76,6 +78,51 @@ theorem hasNext_false_is_final (σ : Static) (π : PubStatic) (fuel : Nat) (work
     · have := e2 p h1; rw [hn] at this; cases this
     · simp at h1; subst h1; simp
 
+/-- **P4b (every announced id is completed — with P4a: exactly once — in a complete stream).**
+For every well-formed environment history: once the scheduler has stopped (it emitted the
+termination event, i.e. the stream ended with `hasNext = false`), every id that was ever
+announced appears in a `completed` entry. -/
+theorem announced_all_completed (σ : Static) (π : PubStatic) (fuel : Nat) (work : Option Work)
+    (h : List Tick) (hok : envOk σ fuel work h = true)
+    (hst : (Sys.run σ π fuel (Sys.start σ π fuel work).1 h).wq.stopped = true) :
+    ∀ i ∈ announcedIds (payloads σ π fuel work h), i ∈ completedIds (payloads σ π fuel work h) := by
+  obtain ⟨hout, hwq⟩ := payloads_eq σ π fuel work h
+  obtain ⟨e, _, hstop, hdom⟩ := domInv_final σ fuel work h hok
+  rw [hwq] at hst
+  obtain ⟨hg, hs⟩ := hstop hst
+  obtain ⟨ti, td, tl, tc⟩ := initial_table π (init σ work).2.1 (init σ work).2.2
+  have hempty : ∀ i, ¬ live (publish π (initialPayload π (init σ work).2.1 (init σ work).2.2).1
+      (wqRun σ fuel (wqStart σ fuel work) h).2).1 i := by
+    intro i ⟨n, hn⟩
+    have hr := hdom n (publish_dom π _ _ _ td n i hn)
+    cases n with
+    | group g => simp [isRoot, hg] at hr
+    | stream s => simp [isRoot, hs] at hr
+  have hopen := publish_open π (wqRun σ fuel (wqStart σ fuel work) h).2
+    (initialPayload π (init σ work).2.1 (init σ work).2.2).1
+    ((initialPayload π (init σ work).2.1 (init σ work).2.2).2.pending.map (·.id)) []
+    ti (by intro r hr; simp at hr) (by simp)
+    (by intro i hi; obtain ⟨a, ha, rfl⟩ := List.mem_map.mp hi; exact Or.inr (tl a ha))
+  intro i hi
+  rw [hout] at hi ⊢
+  have hi' : i ∈ (initialPayload π (init σ work).2.1 (init σ work).2.2).2.pending.map (·.id) ++
+      announcedIds (publish π (initialPayload π (init σ work).2.1 (init σ work).2.2).1
+        (wqRun σ fuel (wqStart σ fuel work) h).2).2 := by
+    simpa [announcedIds] using hi
+  rcases hopen i hi' with h1 | h1
+  · simp only [List.nil_append] at h1
+    simp only [completedIds, List.flatMap_cons, tc, List.map_nil, List.nil_append]
+    exact h1
+  · exact absurd h1 (hempty i)
+
+/-- P4b for a stream that ended: if some payload carries `hasNext = false`, every announced id
+is completed. -/
+theorem complete_stream_all_completed (σ : Static) (π : PubStatic) (fuel : Nat) (work : Option Work)
+    (h : List Tick) (hok : envOk σ fuel work h = true) (p : Payload)
+    (hp : p ∈ payloads σ π fuel work h) (hn : p.hasNext = false) :
+    ∀ i ∈ announcedIds (payloads σ π fuel work h), i ∈ completedIds (payloads σ π fuel work h) :=
+  announced_all_completed σ π fuel work h hok (hasNext_false_is_final σ π fuel work h p hp hn).1
+
 /-- After the termination batch nothing more is ever emitted: a stopped scheduler yields no
 batch, whatever the environment still does. -/
 theorem stopped_emits_nothing (σ : Static) (π : PubStatic) (fuel : Nat) (s : Sys) (t : Tick)
@@ -118,15 +165,51 @@ def protocol_prefix_full : Prop :=
     (∀ g p, σ.parent g = some p ↔ (g, p) ∈ parents) → (∀ g, π.glabel g = some g) →
     checkPrefix false (enclByLabels parents) .null (payloads σ π fuel work h) = none
 
-/-- P1 (announced at most once) for every well-formed environment history. -/
-def announced_once_full : Prop :=
-  ∀ (σ : Static) (π : PubStatic) (fuel : Nat) (work : Option Work) (h : List Tick),
-    envOk σ fuel work h = true → AnnouncedOnce (payloads σ π fuel work h)
+/-- **P1 (each pending id is announced at most once) — and P2 in full: ids are handed out in
+strictly increasing order.**  For every well-formed environment history the ids announced by
+the whole payload stream (initial result included) are strictly increasing, hence pairwise
+distinct.  Behind it: the scheduler-graph invariant `Good` (group nodes form a forest along
+`parent`, children are listed once and are not roots, child streams wait in one task node)
+and `AnnFresh` — a node is announced only when it is not in the publisher's table. -/
+theorem announced_increasing (σ : Static) (π : PubStatic) (fuel : Nat) (work : Option Work)
+    (h : List Tick) (hok : envOk σ fuel work h = true) :
+    (announcedIds (payloads σ π fuel work h)).Pairwise (· < ·) := by
+  obtain ⟨hout, _⟩ := payloads_eq σ π fuel work h
+  obtain ⟨hnd, e, _, _, hfresh⟩ := annInv_final σ fuel work h hok
+  obtain ⟨_, td, _, _⟩ := initial_table π (init σ work).2.1 (init σ work).2.2
+  have h0 := toPending_fresh π {} (init σ work).2.1 (init σ work).2.2 hnd
+    (by intro n _; simp [alookup])
+  have hs0 : SortedBelow ((initialPayload π (init σ work).2.1 (init σ work).2.2).2.pending.map (·.id))
+      (initialPayload π (init σ work).2.1 (init σ work).2.2).1.nextId := by
+    have hb : SortedBelow ([] : List Nat) 0 := ⟨List.Pairwise.nil, by simp⟩
+    have := hb.append_range (nodesOf (init σ work).2.1 (init σ work).2.2).length
+    simp only [initialPayload]
+    rw [h0.1, h0.2]
+    simpa using this
+  have := publish_ann π (wqRun σ fuel (wqStart σ fuel work) h).2
+    (initialPayload π (init σ work).2.1 (init σ work).2.2).1 _ _ td hfresh hs0
+  rw [hout]
+  simpa [announcedIds] using this.1
 
-/-- The part of P1/P2 that is proved: an announced id never equals an id completed by an
-earlier payload, and completed ids never repeat — together "an id is never reused once its
-entry was deleted", without any hypothesis on the environment. -/
-theorem announced_once_partial (σ : Static) (π : PubStatic) (fuel : Nat) (work : Option Work)
+theorem announced_once (σ : Static) (π : PubStatic) (fuel : Nat) (work : Option Work)
+    (h : List Tick) (hok : envOk σ fuel work h = true) : AnnouncedOnce (payloads σ π fuel work h) := by
+  have hp := announced_increasing σ π fuel work h hok
+  unfold AnnouncedOnce
+  exact hp.imp (fun hab => Nat.ne_of_lt hab)
+
+/-- The scheduler-graph invariant itself, at the end of every well-formed history: the group
+nodes form a forest along `σ.parent` (a child is listed only in its parent's node, once, and
+is not a root), and child streams wait in exactly one task node and are not roots. -/
+theorem scheduler_graph_invariant (σ : Static) (fuel : Nat) (work : Option Work) (h : List Tick)
+    (hok : envOk σ fuel work h = true) :
+    Forest σ (wqRun σ fuel (wqStart σ fuel work) h).1 ∧ SForest (wqRun σ fuel (wqStart σ fuel work) h).1 := by
+  obtain ⟨_, e, g, _, _⟩ := annInv_final σ fuel work h hok
+  exact ⟨g.forest, g.sforest⟩
+
+/-- What holds of P1/P2 *without* any hypothesis on the environment: an announced id never
+equals an id completed by an earlier payload, and completed ids never repeat — together "an id
+is never reused once its entry was deleted". -/
+theorem ids_no_hypothesis (σ : Static) (π : PubStatic) (fuel : Nat) (work : Option Work)
     (h : List Tick) :
     NoReuse [] (payloads σ π fuel work h) ∧ CompletedOnce (payloads σ π fuel work h) :=
   ⟨ids_never_reused σ π fuel work h, completed_at_most_once σ π fuel work h⟩
